@@ -69,6 +69,49 @@ func SelfTest(c *core.Ctx, args []string) int {
 		}
 	}
 	fmt.Printf("selftest A: %d worlds × 4 executions of the same plan (GOMAXPROCS 1/4/16/2): %d divergences\n", nW, bad)
+	// ---- C: the seam does not change behaviour — an un-instrumented build of the same tree
+	// (Go's own map order, real clock and pid) must produce the same result tree as the
+	// instrumented one under the asc schedule
+	plainDir := filepath.Join(c.Scratch, "plain-repo")
+	plainBin := filepath.Join(c.Scratch, "bin", "mockery-plain")
+	if r := core.RunCmd("", os.Environ(), 2*time.Minute, "rsync", "-a", "--exclude", ".git", c.RepoDir+"/", plainDir+"/"); r.Exit != 0 {
+		core.Troublef("rsync: %s", r.Stderr)
+	}
+	if r := core.RunCmd(plainDir, core.GoEnv(), 10*time.Minute, "go", "build", "-trimpath", "-o", plainBin, "."); r.Exit != 0 {
+		core.Troublef("building the un-instrumented mockery failed: %s", r.Stderr)
+	}
+	badC := 0
+	resC := core.ParallelMap(c.Jobs, nW, func(i int) string {
+		r := core.Stream(c.Seed, "selftest-world", i)
+		proj, _ := genC06World(r)
+		tree := proj.Tree()
+		var digests [2]string
+		var exits [2]int
+		for j, bin := range []string{c.Bin, plainBin} {
+			base := filepath.Join(c.Scratch, "stc", fmt.Sprintf("w%d", i))
+			root := filepath.Join(base, "root")
+			world.RemoveAll(base)
+			if err := tree.Materialise(root); err != nil {
+				return err.Error()
+			}
+			res := world.Run(bin, root, base, world.Step{Plan: world.Plan("asc", 1, 0, 2000+i, 100+i)}, 90*time.Second)
+			snap, _ := world.Snap(root)
+			digests[j], exits[j] = snap.Digest(), res.Exit
+			world.RemoveAll(base)
+		}
+		if exits[0] != exits[1] || (exits[0] == 0 && digests[0] != digests[1]) {
+			return fmt.Sprintf("world %d: instrumented exit %d / plain exit %d, trees equal: %v", i, exits[0], exits[1], digests[0] == digests[1])
+		}
+		return ""
+	})
+	for _, d := range resC {
+		if d != "" {
+			fmt.Println("SELFTEST DIVERGENCE (C):", d)
+			badC++
+		}
+	}
+	bad += badC
+	fmt.Printf("selftest C: %d worlds, instrumented (asc) vs un-instrumented build (native order, real clock): %d divergences\n", nW, badC)
 	// ---- B
 	exe, _ := os.Executable()
 	for _, p := range props {
